@@ -218,16 +218,7 @@ struct TypedC05 {
     variants: AtomicU64,
 }
 
-fn field_ok(exp: &Exp, got: &RVal) -> bool {
-    match exp {
-        Exp::Is(r) => rval_eq_modulo_empty_array(r, got),
-        Exp::NullOr(r) => *got == RVal::Null || rval_eq_modulo_empty_array(r, got),
-        Exp::Multi(v) => match got {
-            RVal::Array(_, e) => e == v,
-            single => v.len() == 1 && &v[0] == single,
-        },
-    }
-}
+use crate::typed::field_ok;
 
 /// alternative spec-valid encodings of a composite described by `exp`
 pub fn composite_variants(exp: &Expect) -> Vec<(String, Vec<u8>)> {
